@@ -100,7 +100,7 @@ func TestVerif_C15_ServerSelf(t *testing.T) {
 					what string
 				}{
 					{"WAN", "/simwan/kad/1.0.0", func(a ma.Multiaddr) bool { return manet.IsPublicAddr(a) }, "not public"},
-					{"LAN", "/simlan/kad/1.0.0", func(a ma.Multiaddr) bool { return !manet.IsIPLoopback(a) }, "a loopback address"},
+					{"LAN", "/simlan/lan/kad/1.0.0", func(a ma.Multiaddr) bool { return !manet.IsIPLoopback(a) }, "a loopback address"},
 				} {
 					m, served := ask(side.pid)
 					if !served {
